@@ -636,7 +636,8 @@ def strip_newtype_fields(t):
     while isinstance(t, tuple) and t and t[0] == "field" and t[3] in ("0", "element") and \
             (t[2] or "").rsplit("::", 1)[-1] in ("SigningShare", "VerifyingShare", "SerializableScalar",
                                                   "SerializableElement", "VerifyingKey", "Randomizer",
-                                                  "CoefficientCommitment", "NonceCommitment", "Nonce"):
+                                                  "CoefficientCommitment", "NonceCommitment", "Nonce", "Identifier", "Challenge",
+                                                  "BindingFactor", "GroupCommitment", "GroupCommitmentShare", "Delta", "Sigma"):
         t = t[1]
     return t
 
